@@ -3,7 +3,7 @@ import ast
 from vstatic import terms as T
 from vstatic.terms import sym, Term, Atom, lift, pretty, TRUE, FALSE, NONE
 from vstatic.nonedef import analyse
-from .common import init_invariant, prog_functions, attr_stores_with_loop, fresh_value, agree_ref, selfattr, dominates
+from .common import init_invariant, prog_functions, attr_stores_with_loop, fresh_value, agree_ref, selfattr, dominates, fresh_request_buffer
 
 MA = 'voltage.antenna.MultiAntennaArray.'
 
@@ -202,15 +202,7 @@ def __init__(self, num_antennas, sample_rate=3*u.GHz, fch1=0*u.GHz, ascending=Tr
     ctx.ob('GUARDDOM', 'requests not longer than the maximum delay are rejected before any stream is advanced', gs, ok,
            {'asserts': [e.text() for e in asserts]}, node=(asserts[0].node if asserts else gs.node), construct='assert num_samples > max_delay')
 
-    ut = ctx.func('voltage.data_stream.DataStream._update_t')
-    ru, Iu = ctx.run(ut, expand=False)
-    vst = [e for e in Iu.events if e.kind == 'store' and e.data.get('target') == 'attr' and e.data.get('name') == 'v']
-    okv = len(vst) == 1 and not vst[0].pc and vst[0].data['value'].key == ctx.spec(ut, 'xp.zeros(num_samples)').key
-    fills = [e for e in Iu.events if e.kind == 'call' and e.data.get('name') in ('.fill',) ]
-    ctx.ob('ALIASINPLACE', 'every request allocates a fresh voltage buffer (the per-antenna caches keep views of the previous one, '
-           'so it must never be reused in place)', ut, okv and not fills,
-           {'stores': [e.text() for e in vst], 'path_conditions': [[pretty(c) for c in e.pc] for e in vst], 'in_place': [e.text() for e in fills]},
-           node=(vst[0].node if vst else ut.node), construct='self.v per request')
+    fresh_request_buffer(ctx)
     # ---- D4 reset
     ctx.clause = 'D4'
 
